@@ -546,11 +546,15 @@ pub fn creation_cases(w: &World, fi: usize, st: &mut Stats) {
             // method removed: creation succeeds, calling the removed method panics naming it
             if let (Ok(mut conn), RevLabel::Breaking { kind: BreakKind::MethodRemoved, method, .. }) = (got, &rj.label) {
                 if ri.method(method).is_some() {
-                    let spec = CallSpec {
-                        method: method.clone(),
-                        args: vec![DV::N(1), DV::S("x".into())],
-                        imp: ImplScript { ret: DV::N(0), panic: None, plans: vec![], perturb: 0 },
-                        caller: CallerScript { closure_rets: vec![], obj_ids: vec![], ret_calls: vec![] },
+                    // arguments of the right types for the caller's declaration of the method
+                    let spec: CallSpec = {
+                        use proptest::strategy::{Strategy, ValueTree};
+                        let strat = abigen::strat::call_spec(fam, i, i, method, abigen::strat::CallOpts { panic_rate: 0, force_panic: None });
+                        let mut runner = proptest::test_runner::TestRunner::new_with_rng(
+                            proptest::test_runner::Config::default(),
+                            proptest::test_runner::TestRng::from_seed(proptest::test_runner::RngAlgorithm::ChaCha, &[7u8; 32]),
+                        );
+                        strat.new_tree(&mut runner).expect("call spec").current()
                     };
                     st.evaluations += 1;
                     st.class("creation.method_removed.call_missing_method");
